@@ -299,7 +299,11 @@ class G:
                 s.fns = {k: saved[k] for k in order[:order.index(name)]}        # the new body may call only what was defined before the name first was: no recursion
                 items += s.define(name, kind, np_, gl)
                 s.fns = saved
-            again = [x for x in tops if not any(n["t"] == "call" and n["name"].get("n") == "read" for n in walk(x))]
+            # (not the statements that read input, and not loops over a value the first run may have made longer: run twice, a loop that
+            # doubles the value it iterates over needs 2^length steps)
+            def grows(x):
+                return any(n["t"] == "for" and any(i.get("t") == "call" and i["name"].get("n") in ("elems", "indices") and any(m.get("t") == "name" for m in walk(i)) for i in n["iters"]) for n in walk(x))
+            again = [x for x in tops if not any(n["t"] == "call" and n["name"].get("n") == "read" for n in walk(x)) and not grows(x)]
             items += again
         for g in list(gl)[:3]:
             items.append(N(g))
